@@ -1,3 +1,7 @@
 import TradingVerif.Props.C01
+import TradingVerif.Props.C03
 import TradingVerif.Props.C05
+import TradingVerif.Props.C06
+import TradingVerif.Props.C12
+import TradingVerif.Props.C13
 import TradingVerif.Props.C14
